@@ -20,6 +20,8 @@ import NV.Common.Proto
 import NV.C07.Model
 import NV.C07.Spec
 import NV.C07.WF
+import NV.C07.Build
+import NV.C07.LemmasBuild
 
 namespace NV.C07
 
@@ -139,6 +141,7 @@ def parseProg (ts : List String) : Option Spec.AProg :=
         else { P with fns := P.fns ++ [{ name := f, mods := parseMods m, isDef := false, calls := [] }] }
       | ["d", m, f, cs] =>
         { P with fns := P.fns.filter (·.name != f) ++ [{ name := f, mods := parseMods m, isDef := true, calls := parseACalls cs }] }
+      | ["v", _] => { P with hasW := true }
       | _ => P) P)
   | _ => none
 
@@ -151,6 +154,7 @@ inductive Cmd where
 
 structure Parsed where
   graph : Spec.AGraph := []
+  srcs : List (String × List String) := []      -- program name, its items in source order
   cmds : List Cmd := []
   bad : List String := []
 
@@ -164,7 +168,7 @@ def parseCase (lines : List String) : Parsed :=
     | [] => p
     | "prog" :: rest =>
       match parseProg ("prog" :: rest) with
-      | some P => { p with graph := p.graph ++ [P] }
+      | some P => { p with graph := p.graph ++ [P], srcs := p.srcs ++ [(P.name, rest.drop 1)] }
       | none => { p with bad := line :: p.bad }
     | "names" :: _ => p
     | ["ld", oid, prog] => { p with cmds := .ld oid ((prog.splitOn "/").getLastD prog) :: p.cmds }
@@ -180,6 +184,44 @@ def parseCase (lines : List String) : Parsed :=
 
 /-! ### model mode -/
 
+def modBits (s : String) : Nat :=
+  (splitOnC s "_").foldl (fun acc m =>
+    acc ||| (if m == "static" then Gen.C07.nameStatic else if m == "private" then Gen.C07.namePrivate
+             else if m == "protected" then Gen.C07.nameProtected else if m == "public" then Gen.C07.namePublic else 0)) 0
+
+/-- the source items of one program for the construction model -/
+def toItems (progIdx : String → Nat) (key : String → Nat) (items : List String) : List Item :=
+  let its := items.filterMap fun it =>
+    match it.splitOn ":" with
+    | ["i", m, par] => some (Item.inh (modBits m) (progIdx par))
+    | ["p", m, f] => some (Item.proto (modBits m) (key f) f)
+    | ["d", m, f, cs] =>
+      let calls := (parseACalls cs).map fun c =>
+        match c with
+        | .loc n => SrcCall.loc (key n)
+        | .fp n => SrcCall.fp (key n)
+        | .sup par n => SrcCall.sup (par.map progIdx) (key n)
+      some (Item.defn (modBits m) (key f) f calls)
+    | _ => none
+  let extra := items.filterMap fun it =>
+    match it.splitOn ":" with
+    | ["v", m] => some (Item.var (modBits m))
+    | _ => none
+  -- the variable of the program's own level is declared after the last inherit statement
+  its ++ [Item.var 0] ++ extra
+
+/-- compile every program of the case with the construction model, parents first (case order) -/
+def buildWorld (p : Parsed) (d : Dump) : World :=
+  let progIdx (n : String) : Nat := (p.srcs.findIdx? (·.1 == n)).getD p.srcs.length
+  let key (n : String) : Nat := (d.key n).getD (900000 + n.length * 131 + NV.C07.digitsOf n)
+  p.srcs.foldl (fun (w : World) (name, items) =>
+    let id := ((d.raws.find? (·.name == name)).map (·.id)).getD 0
+    let st := (toItems progIdx key items).foldl (doItem w) {}
+    -- the hypothesis of `built_alias_flags_agree`, evaluated on every program built; a violation is made visible
+    -- in the program name, i.e. in the compared `tbl` line
+    let name' := if aliasOrdered st.slots then name else name ++ "!alias-not-ordered"
+    { progs := w.progs ++ [{ finish name id st with name := name' }] }) { progs := [] }
+
 def runModel (body : List String) : List String :=
   let (input, dumped) := splitJudge body
   let p := parseCase input
@@ -187,7 +229,9 @@ def runModel (body : List String) : List String :=
   if !p.bad.isEmpty then p.bad.map (fun l => s!"bad-line {l}")
   else if !d.bad.isEmpty then d.bad.map (fun l => s!"bad-dump {l}")
   else
-    let w := d.world
+    -- the tables are BUILT by the model of the compiler; from the implementation's dump only the name-pointer
+    -- ranks, the program ids and the list of dumped programs / objects are taken
+    let w := buildWorld p d
     let fresh := (d.names.foldl (fun m x => max m x.2) 0) + 1000
     let s := p.cmds.foldl (fun (s : St) c =>
       match c with
@@ -196,7 +240,17 @@ def runModel (body : List String) : List String :=
         let objs := d.objs.map fun (oid, pn) =>
           let pi := (w.progs.findIdx? (·.name == pn)).getD w.progs.length
           ({ oid, prog := pi, vars := List.replicate ((w.progs[pi]?.map (·.nvt)).getD 0) 0 } : Obj)
-        { s with objs, out := (d.lines.map Ev.line).reverse ++ s.out }
+        let lines := d.lines.map fun l =>
+          match toks l with
+          | "tbl" :: name :: _ =>
+            match w.progs.find? (·.name == name) with
+            | some P =>
+              -- a program compiled again (load of a file that so far was only inherited) has a new id and the
+              -- same table: the id is the environment's, taken from the dumped line
+              renderTbl w { P with id := ((parseTbl l).map (·.id)).getD P.id }
+            | none => s!"tbl {name} not-in-case"
+          | _ => l
+        { s with objs, out := (lines.map Ev.line).reverse ++ s.out }
       | .call o oid fn =>
         match d.key fn with
         | some k => doCall w s o oid fn k
@@ -258,6 +312,35 @@ def abstractionCheck (g : Spec.AGraph) (d : Dump) : List String :=
       if realInh == specInh then acc else acc ++ [s!"abstraction prog={P.name} inherits real={realInh} spec={specInh}"]) []
   ++ (if w.progs.isEmpty && !d.objs.isEmpty then ["abstraction no-tables"] else [])
 
+/-- every runtime slot of every dumped program against the specification: the slot's function name resolves in the
+    abstract graph iff the slot is not NAME_UNDEFINED; if it resolves, the slot chases to the program the resolver
+    names and its modifier bits are the specification's effective modifiers along that path -/
+def slotsAgainstSpec (g : Spec.AGraph) (d : Dump) : List String :=
+  let w := d.world
+  let U := Gen.C07.nameUndefined
+  w.progs.zipIdx.foldl (fun acc (P, pi) =>
+    if (w.progs.take pi).any (·.name == P.name) then acc else     -- a re-compiled copy of the same file
+    let gp := g.indexOf P.name
+    if gp ≥ g.length then acc else
+    (List.range P.flags.length).foldl (fun acc i =>
+      let fl := P.flags.getD i 0
+      match chase w w.fuel pi i 0 0 with
+      | none => acc ++ [s!"build-slot prog={P.name} slot={i} does-not-chase"]
+      | some fr =>
+        let defProg := ((w.progs[fr.prog]?).map (·.name)).getD "?"
+        let fn := ((w.progs[fr.prog]?.bind (·.ft[fr.fidx]?)).map (·.nameStr)).getD "?"
+        match Spec.resolve g.toS gp fn with
+        | none =>
+          if hasBit fl U then acc else acc ++ [s!"build-slot prog={P.name} slot={i} fn={fn} unresolvable-but-not-undefined flags={fl}"]
+        | some path =>
+          let m := Spec.effMods g fn gp path
+          let want := ((g[Spec.endOf g gp path]?).map (·.name)).getD "?"
+          let ok := !(hasBit fl U) && defProg == want &&
+            hasBit fl Gen.C07.nameStatic == m.static && hasBit fl Gen.C07.namePrivate == m.priv &&
+            hasBit fl Gen.C07.nameProtected == m.prot && hasBit fl Gen.C07.namePublic == m.pub
+          if ok then acc
+          else acc ++ [s!"build-slot prog={P.name} slot={i} fn={fn} flags={fl} target={defProg} spec-target={want} spec-mods=static:{m.static},private:{m.priv},protected:{m.prot},public:{m.pub}"]) acc) []
+
 def runJudge (body : List String) : List String :=
   let (input, impl) := splitJudge body
   let p := parseCase input
@@ -282,7 +365,7 @@ def runJudge (body : List String) : List String :=
     let v1 := compareEvs expRev.reverse obs
     let w := d.world
     let v2 := if d.raws.isEmpty then [] else (wfReport w).map (fun s => s!"wf {s}")
-    let v3 := abstractionCheck g d
+    let v3 := abstractionCheck g d ++ slotsAgainstSpec g d
     match v1 ++ v2 ++ v3 with
     | [] => ["ok"]
     | vs => vs.map (fun v => s!"bad {v}")
